@@ -1,7 +1,7 @@
 (* C20 — channel log and scrapli log file record the session faithfully.
    This file contains only the property theorems (closed by [exact]) and Print Assumptions,
    plus the by-computation obligations over the definitions regenerated from the source tree. *)
-From Verif Require Import Bytes LogFormat LogHandler ChanLog Commandeer LogFormat_Proofs LogHandler_Proofs LogRepr_Proofs ChanLog_Proofs Commandeer_Proofs.
+From Verif Require Import Bytes LogFormat LogHandler ChanLog Commandeer ChanReopen LogFormat_Proofs LogHandler_Proofs LogRepr_Proofs ChanLog_Proofs Commandeer_Proofs ChanReopen_Proofs LogMode_Proofs.
 From Gen Require Import Gen_Log.
 
 (* ---- channel log ---- *)
@@ -94,6 +94,102 @@ Theorem C20_reopen_same_destination_refuted :
       <> s d ++ remove_byte CR (concat (pre ++ map snd post)).
 Proof. exact reopen_same_destination_refuted. Qed.
 Print Assumptions C20_reopen_same_destination_refuted.
+
+(* ---- ONE driver object opened, closed and opened again (Driver.open / close, several sessions on one channel object) ---- *)
+(* append mode, path or True: after any number of whole sessions the file holds what it held before the first followed by
+   EVERY byte served in every session, CRs removed, in order, once; no read raised, none went unlogged *)
+Theorem C20_reopen_append_exact :
+  forall (keeps_open : bool) (existing : bytes) (sessions : list (list bytes)),
+    let st := reopen_run false (SFile true) keeps_open (reopen_init existing) (history sessions) in
+    dest st = existing ++ crs (concat sessions) /\ raised st = 0%nat /\ dropped st = 0%nat
+    /\ logged st = length (concat sessions).
+Proof. exact reopen_append_exact. Qed.
+Print Assumptions C20_reopen_append_exact.
+
+(* write mode: every open starts the file anew — after the last close it holds the LAST session, whole *)
+Theorem C20_reopen_write_last :
+  forall (keeps_open : bool) (existing : bytes) (earlier : list (list bytes)) (last : list bytes),
+    let st := reopen_run false (SFile false) keeps_open (reopen_init existing) (history (earlier ++ [last])) in
+    dest st = crs last /\ raised st = 0%nat /\ dropped st = 0%nat.
+Proof. exact reopen_write_last. Qed.
+Print Assumptions C20_reopen_write_last.
+
+(* a BytesIO that survives close() accumulates every session after what it held *)
+Theorem C20_reopen_bytesio_kept_open_exact :
+  forall (existing : bytes) (sessions : list (list bytes)),
+    let st := reopen_run false SBytesIO true (reopen_init existing) (history sessions) in
+    dest st = existing ++ crs (concat sessions) /\ raised st = 0%nat /\ dropped st = 0%nat.
+Proof. exact reopen_bytesio_kept_open_exact. Qed.
+Print Assumptions C20_reopen_bytesio_kept_open_exact.
+
+(* io.BytesIO proper is closed by close(): it holds the first session; opened again, EVERY read raises — the full statement
+   (the log holds every byte read) is false of that region, and what is true instead is that nothing is lost quietly *)
+Definition C20_reopen_full : Prop :=
+  forall (k : sink_kind) (keeps_open : bool) (existing : bytes) (sessions : list (list bytes)), k = SFile true \/ k = SBytesIO ->
+    dest (reopen_run false k keeps_open (reopen_init existing) (history sessions)) = existing ++ crs (concat sessions).
+Theorem C20_reopen_full_refuted : ~ C20_reopen_full.
+Proof.
+  intro H. specialize (H SBytesIO false [] [[[97]]; [[98]]] (or_intror eq_refl)). vm_compute in H. discriminate.
+Qed.
+Print Assumptions C20_reopen_full_refuted.
+
+Theorem C20_reopen_bytesio_closed_loud :
+  forall (existing : bytes) (first : list bytes) (later : list (list bytes)),
+    let st := reopen_run false SBytesIO false (reopen_init existing) (history (first :: later)) in
+    dest st = existing ++ crs first /\ raised st = length (concat later) /\ dropped st = 0%nat
+    /\ logged st = length first.
+Proof. exact reopen_bytesio_closed_loud. Qed.
+Print Assumptions C20_reopen_bytesio_closed_loud.
+
+Theorem C20_reopen_nothing_silent :
+  forall (k : sink_kind) (keeps_open : bool) (existing : bytes) (sessions : list (list bytes)), k <> SNone ->
+    let st := reopen_run false k keeps_open (reopen_init existing) (history sessions) in
+    dropped st = 0%nat /\ (logged st + raised st)%nat = length (concat sessions).
+Proof. exact reopen_nothing_silent. Qed.
+Print Assumptions C20_reopen_nothing_silent.
+
+(* "open() sets the log up only when channel_log is None, read() skips a closed log": the second session is lost without a sound *)
+Theorem C20_reopen_skip_if_set_refuted :
+  exists k existing sessions,
+    let st := reopen_run true k false (reopen_init existing) (history sessions) in
+    dropped st <> 0%nat /\ raised st = 0%nat /\ dest st <> existing ++ crs (concat sessions).
+Proof. exact reopen_skip_if_set_refuted. Qed.
+Print Assumptions C20_reopen_skip_if_set_refuted.
+
+(* ---- enable_basic_logging(mode=...): write and append modes in every spelling ---- *)
+Theorem C20_mode_spelling :
+  forall m : str,
+    (lower m = mode_append -> mode_of m = Some true) /\
+    (lower m = mode_write -> mode_of m = Some false) /\
+    (lower m <> mode_append -> lower m <> mode_write -> mode_of m = None).
+Proof. exact mode_of_spec. Qed.
+Print Assumptions C20_mode_spelling.
+
+(* whatever the casing of "append", both handlers: the previous content of the file is kept and what follows it is exactly what
+   the same records give on an empty file (C20_file_log_complete / C20_plain_log_complete say which lines those are) *)
+Theorem C20_mode_append_keeps_previous :
+  forall (buffered : bool) (c : fconf) (existing m : str) (recs : list record) (st : hstate),
+    lower m = mode_append -> run_basic buffered (fixed c) existing m recs = Some st ->
+    exists added, file st = existing ++ added /\ file (run_handler buffered (fixed c) [] true recs) = added.
+Proof. exact basic_logging_append_keeps_previous. Qed.
+Print Assumptions C20_mode_append_keeps_previous.
+
+Theorem C20_mode_write_starts_empty :
+  forall (buffered : bool) (c : hconf) (existing m : str) (recs : list record),
+    lower m = mode_write -> run_basic buffered c existing m recs = Some (run_handler buffered c [] false recs).
+Proof. exact basic_logging_write_any_casing. Qed.
+Print Assumptions C20_mode_write_starts_empty.
+
+Theorem C20_mode_refuses_other_strings :
+  forall (buffered : bool) (c : hconf) (existing m : str) (recs : list record),
+    lower m <> mode_append -> lower m <> mode_write -> run_basic buffered c existing m recs = None.
+Proof. exact basic_logging_refuses_other_strings. Qed.
+Print Assumptions C20_mode_refuses_other_strings.
+
+(* choosing the file mode from the raw spelling after validating the lower-cased one: "Append" opens the file with "w" *)
+Theorem C20_mode_raw_lookup_refuted : exists m, lower m = mode_append /\ mode_of_raw m = Some false.
+Proof. exact mode_of_raw_refuted. Qed.
+Print Assumptions C20_mode_raw_lookup_refuted.
 
 (* ---- log file, buffering handler (ScrapliFileHandler), as the code is now ---- *)
 (* For EVERY formatter configuration, previous file content, mode and EVERY sequence of records (eager or
